@@ -231,6 +231,27 @@ def sources(st):
     return out, tname(chain[0][0], ae)
 
 
+def make_env(jinja2, st, **kw):
+    srcs, main = sources(st)
+    return jinja2.Environment(loader=jinja2.DictLoader(srcs), autoescape=jinja2.select_autoescape(("html",)), **kw), main
+
+
+def render_with(env, main, flag, d, dl, how="render"):
+    ctx = {f"n{k}": v for k, v in d.items()}
+    ctx.update({f"n{k}": list(v) for k, v in dl.items()})
+    ctx[L.FLAG_NAME] = flag
+    try:
+        t = env.get_template(main)
+        if how == "generate":
+            return "".join(t.generate(ctx))
+        if how == "async":
+            import asyncio
+            return asyncio.run(t.render_async(ctx))
+        return t.render(ctx)
+    except Exception:
+        return None
+
+
 def real_render(jinja2, st, flag, d, dl):
     srcs, main = sources(st)
     ctx = {f"n{k}": v for k, v in d.items()}
